@@ -420,7 +420,6 @@ func (w *world) waitTick(o *Obs) {
 	case <-time.After(waitLimit):
 		fatal("processing loop neither asked the quota nor ended")
 	}
-	o.Asking = w.asking
 }
 
 func (w *world) protect(o *Obs, f func()) {
@@ -493,7 +492,6 @@ func (w *world) exec(op *Op) bool {
 		w.tickAns <- op.B
 		if op.B && !w.hooked {
 			w.atSignal = true // no yield point: the loop runs on; OpSignal collects where it stops
-			o.Asking = w.asking
 		} else {
 			w.waitTick(o)
 		}
@@ -509,10 +507,8 @@ func (w *world) exec(op *Op) bool {
 		w.waitTick(o)
 	case OpScan:
 		w.protect(o, w.h.TTLScan)
-		o.Asking = w.asking
 	case OpAdvance:
 		w.mock.Set(w.mock.Now().Add(time.Duration(op.D)))
-		o.Asking = w.asking
 	case OpGate:
 		if !w.hooked {
 			return false
@@ -521,7 +517,6 @@ func (w *world) exec(op *Op) bool {
 		w.gateOpen = op.B
 		w.gateCond.Broadcast()
 		w.gateMu.Unlock()
-		o.Asking = w.asking
 	case OpDrain:
 		if w.ticking || w.drained {
 			return false
@@ -531,6 +526,7 @@ func (w *world) exec(op *Op) bool {
 	default:
 		fatal("unknown op %q", op.K)
 	}
+	o.Asking = w.asking // the request the loop holds (quota asked, or admitted and not yet signalled)
 	w.collect(o)
 	return true
 }
